@@ -1,18 +1,20 @@
 #!/usr/bin/env python3
-"""seedcheck.py <patch.diff> <pid> [<pid>...]: apply a seeded change to /repo, run the quick checks, undo. Prints FAIL lines."""
-import subprocess, sys
-patch = sys.argv[1]
+"""seedcheck.py <patch.diff> <pid> [<pid>...]: apply a seeded change to a scratch copy of /repo (never to /repo), run the quick checks
+against it, undo. Prints FAIL lines."""
+import os, subprocess, sys
+sys.path.insert(0, os.path.dirname(os.path.abspath(__file__)))
+import scratch
+patch = os.path.abspath(sys.argv[1])
 pids = sys.argv[2:]
-def sh(c, **k): return subprocess.run(c, shell=True, stdout=subprocess.PIPE, stderr=subprocess.STDOUT, text=True, **k)
-assert sh('git -C /repo status --porcelain --untracked-files=no').stdout.strip() == '', '/repo not clean'
-a = sh('git -C /repo apply %s' % patch)
+scratch.prepare()
+a = scratch.apply(patch)
 if a.returncode != 0:
     print('patch does not apply', a.stdout); sys.exit(2)
 try:
     for pid in pids:
-        r = sh('/verif/check %s quick' % pid, cwd='/verif')
-        lines = [l for l in r.stdout.splitlines() if l.startswith('==') or 'FAIL' in l or l.startswith('VIOLATION') or l.startswith('KNOWN')]
+        r = subprocess.run('/verif/check %s quick' % pid, shell=True, cwd='/verif', env=scratch.env(), stdout=subprocess.PIPE, stderr=subprocess.STDOUT, text=True)
+        lines = [l for l in r.stdout.splitlines() if l.startswith('==') or 'FAIL' in l or l.startswith('VIOLATION') or l.startswith('KNOWN') or l.strip().startswith('note:')]
         print('--- %s rc=%d' % (pid, r.returncode))
         for l in lines: print(l[:400])
 finally:
-    sh('git -C /repo checkout -- .')
+    scratch.revert(patch)
